@@ -390,6 +390,7 @@ int main(void)
 		char *w[8]; int n = 0; char *save = NULL, *p;
 		for (p = strtok_r(line, " \n", &save); p && n < 8; p = strtok_r(NULL, " \n", &save)) w[n++] = p;
 		int r = -1;
+		alarm(120);            /* per scenario: a loop that never ends is a result (SIGALRM), not a hang of the check */
 		if (n == 1 && !strcmp(w[0], "bufsz")) { printf("%zu\n", c12_istream_bufsz()); r = 0; }
 		else if (n == 5 && !strcmp(w[0], "readat")) r = do_readat(w[1], w[2], w[3], w[4]);
 		else if (n == 5 && !strcmp(w[0], "writeat")) r = do_writeat(w[1], w[2], w[3], w[4]);
